@@ -473,7 +473,15 @@ def run_machine(draws, state, tier):
     V = res.violations
     pool = state["pool"]
     st = draws.stream("ops")
-    entry = pool[st.below(len(pool), "schema")]
+    if st.below(4, "source_kind") == 0:
+        entry = [e for e in pool if e.kind == "code"][st.below(2, "code")]
+    else:
+        # an SDL source of its own for every case
+        from .pool import PoolEntry, gen_sdl
+        sdl_seed = st.below(1 << 30, "sdl_seed")
+        _parts = gen_sdl(sdl_seed, 0)
+        entry = PoolEntry("sdl@%d" % sdl_seed, join_sdl(_parts), None, "sdl",
+                          _parts)
     if entry.kind == "sdl":
         parts = list(entry.parts)
         plain_roots = ("type Query {" in entry.sdl
